@@ -293,6 +293,18 @@ def run(ctx):
             if nb >= 3 and ctx.rnd.random() < 0.5:
                 bl[2] = {"w": 1, "r": r, "s": {cs[0]: 5}}
             ctx.rnd.shuffle(bl)
+        if nb >= 2 and len(cs) >= 2 and ctx.rnd.random() < 0.35:
+            # the same (ranking, scores) content written with the score dictionary in two different key orders
+            ks = ctx.rnd.sample(cs, ctx.rnd.randint(2, len(cs)))
+            sc = {c: ctx.rnd.choice([1, 2, 3, 0.5, F(7, 2)]) for c in ks}
+            r = gen.ranking(ctx.rnd, cs) if ctx.rnd.random() < 0.5 else None
+            b1 = {"w": ctx.rnd.choice([1, 2, F(1, 2)]), "s": dict(sc)}
+            b2 = {"w": ctx.rnd.choice([1, 3]), "s": {c: sc[c] for c in reversed(ks)}}
+            if r is not None:
+                b1["r"], b2["r"] = r, r
+            bl[ctx.rnd.randrange(len(bl))] = b1
+            bl.insert(ctx.rnd.randrange(len(bl) + 1), b2)
+            ctx.count("same_content_different_key_order")
         ctx.guard("profile", check_profile, ctx, {"kind": "profile", "cands": cs, "ballots": [enc(b) for b in bl]},
                   not ctx.quick)
 
